@@ -97,11 +97,70 @@ def c11_lexer_class(world):
     return out
 
 
+def lexer_regex_spec(world):
+    """the pattern of every token rule denotes the language its contract is written for (the contract's
+    precondition `matches(t.value, <regex>)` is the specification of what the rule consumes: a comment body stops
+    at CR and LF, a quoted string at the next quote, ...)"""
+    from contracts import lexer as LC
+    out = []
+    src = SourceFile.get('pysmi/lexer/smi.py')
+    for c in LC.CONTRACTS:
+        spec = [n[6:] for n in c.notes if n.startswith('regex=')]
+        if not spec or c.func.endswith('t_error'):
+            continue            # (the error rule has no pattern: PLY hands it the unmatched rest of the text)
+        t0 = time.time()
+        node = src.find(c.func)
+        name = '%s.pattern_is_the_specified_language' % c.id
+        if node is None:
+            out.append(_ob(name, False, {'clause': 'rule %s exists' % c.func}, t0, 'static'))
+            continue
+        doc = docstring_of(node)
+        if doc is None:
+            out.append(_ob(name, False, {'clause': 'rule %s has a pattern' % c.func}, t0, 'static'))
+            continue
+        if doc == spec[0]:
+            out.append(_ob(name, True, {'clause': 'pattern %r' % doc}, t0, 'static'))
+            continue
+        (r1, la1), (r2, la2) = parse_regex(doc), parse_regex(spec[0])
+        x = z3.String('x')
+        sol = z3.Solver()
+        sol.set('timeout', 20000)
+        sol.add(z3.Xor(z3.InRe(x, r1), z3.InRe(x, r2)))
+        res = sol.check()
+        same_la = (la1 is None) == (la2 is None) and (la1 is None or z3.simplify(la1 == la2) is not None)
+        if res == z3.unsat and same_la and (la1 is None or str(la1) == str(la2)):
+            out.append(_ob(name, True, {'clause': 'L(%r) = L(%r)' % (doc, spec[0])}, t0))
+        elif res == z3.sat:
+            w = sol.model()[x].as_string()
+            d = _ob(name, False, {'clause': 'L(%r) = L(%r)' % (doc, spec[0]), 'separating_lexeme': w}, t0,
+                    witness={'lexeme': w, 'pattern': doc, 'specified': spec[0]})
+            d['replay_code'] = (
+                "if __name__ == '__main__':\n    import re, sys\n"
+                "    from pysmi.lexer.smi import SmiV2Lexer\n"
+                "    w = REPLAY['witness']\n"
+                "    pat = SmiV2Lexer.%s.__doc__\n"
+                "    a = re.fullmatch(pat, w['lexeme'], re.VERBOSE) is not None\n"
+                "    b = re.fullmatch(w['specified'], w['lexeme'], re.VERBOSE) is not None\n"
+                "    print('rule %s: pattern %%r %%s the lexeme %%r, the specified language %%r %%s it'\n"
+                "          %% (pat, 'matches' if a else 'does not match', w['lexeme'], w['specified'],\n"
+                "             'contains' if b else 'does not contain'))\n"
+                "    sys.exit(10 if a != b else 0)\n" % (c.func.split('.')[-1], c.func.split('.')[-1]))
+            out.append(d)
+        else:
+            d = _ob(name, False, {'clause': 'L(%r) = L(%r)' % (doc, spec[0]), 'solver': str(res)}, t0)
+            d['verdict'] = 'unknown' if res != z3.unsat else 'refuted'
+            out.append(d)
+    return out
+
+
 def run(pid, tier, seed, world):
     out = []
     try:
         if pid == 'C11':
             out += c11_lexer_class(world)
+        if pid in ('C11', 'C02', 'C05'):
+            out += [o for o in lexer_regex_spec(world)
+                    if pid != 'C05' or 'NUMBER' in o['name'] or 'STRING' in o['name']]
         if pid == 'C17':
             from .lockstep import c17_obligations
             out += c17_obligations(tier, seed)
